@@ -154,11 +154,38 @@ CHECKS = {
              "positivity, rigid invariance and linear reproduction. Known finding: the MINI templates put the bubble point into the geometry map "
              "(linear fields are not reproduced; recorded in known_findings.json).",
         ref="5/C06"),
+    "C01": dict(
+        engine="Items",
+        technique="TLA+ law module Items.tla: 7-point central-stencil derivative law stated in integers and evaluated by TLC on symmetric "
+                  "differences of the real assembled vectors vs columns / TLC-formed products of the real assembled matrix; symmetry classes "
+                  "and the solver's multiplier convention; reference instance (cubic map) and negatives at TLC start-up",
+        text="For 25+ item kinds (solid bodies on 3D / plane-strain / axisymmetric / mixed u-p-J fields, several element families and materials, "
+             "the nearly-incompressible body at a settled state, follower pressure in 3 field kinds, Cauchy-stress load, multi-point constraint, "
+             "contact closed/open, point load, body force, gravity, form item) TLC checks 45 D1 - 9 D2 + D3 = 15 K d for unit and lattice "
+             "directions, K = K^T for the symmetric classes, and that fun_items / jac_items return multiplier x (vector, matrix).",
+        note="h = 2^-6; resolution ~1e-5 relative (a 2 % error in one stiffness term is detected); polynomial materials are identities up to "
+             "round-off, transcendental ones are sampled on lattice states with min det F >= 0.5; 8 (quick) / 24 (thorough) probe columns "
+             "per record plus one lattice direction; contact away from switching.",
+        ref="5/C01"),
+    "C14": dict(
+        engine="Items",
+        technique="TLA+ balance laws in Items.tla evaluated by TLC on nodal force vectors with lattice-exact current positions (sums, cross "
+                  "products, vector areas of bilinear faces, quadratic forms over {-1,0,1}^8)",
+        text="TLC sums the internal nodal forces of solid bodies (force balance; moment balance about spec-issued points; axial sum only for "
+             "axisymmetric bodies), compares body-force / gravity resultants with density x acceleration x volume, point loads entry by "
+             "entry, the follower-pressure resultant with minus the pressure times the integrated current area vector computed by TLC from "
+             "the deformed lattice positions (zero on the closed surface), MPC self-equilibrium, and mass matrices: symmetry, total mass per "
+             "direction, no cross-direction coupling, v^T M v >= 0 for every v in {-1,0,1}^8.",
+        note="2^-20 fixed point; hex / tet / plane strain / axisymmetric / mixed bodies with objective materials on lattice-perturbed 8-cell "
+             "meshes. Calls the library does not offer (mass of axisymmetric bodies, 2-vector gravity on axisymmetric fields) are not cases.",
+        ref="5/C14"),
 }
 
 NOT_YET = {}
 
 ENGINES = [
+    {"name": "Items", "path": "spec/Items.tla", "serves_properties": ["C01", "C14"],
+     "kind_free_text": "TLA+ stencil-derivative / symmetry / multiplier / balance laws for solver items, evaluated by TLC in fixed point"},
     {"name": "Region", "path": "spec/Region.tla", "serves_properties": ["C06"],
      "kind_free_text": "TLA+ laws of regions/fields: exact lattice volumes, polynomial reproduction evaluated by TLC in fixed point"},
     {"name": "TensorLaws", "path": "spec/TensorLaws.tla", "serves_properties": ["C17"],
